@@ -21,36 +21,88 @@ def _mag(v):
     return None
 
 
+def _balance(x, ui):
+    """BalanceTimeDuration in exact integer arithmetic: fields of |x| ns with largest unit index ui, times the sign"""
+    sgn = -1 if x < 0 else 1
+    cur = abs(x)
+    out = [0] * 7
+    radices = [1000, 1000, 1000, 60, 60, 24]          # ns -> us -> ms -> s -> min -> h -> d
+    for step, fi in enumerate(range(6, -1, -1)):
+        if fi == ui:
+            out[fi] = cur
+            break
+        out[fi] = cur % radices[step]
+        cur //= radices[step]
+    return [sgn * v for v in out]
+
+
 def check_balance(run, fx):
+    from .. import hireval as H
+    from .common import fold
+    from ..terms import show
     rule = "R13.balanced-field-ranges"
     run.rule(rule, "TimeDuration::from_normalized (BalanceTimeDuration): for each largest unit, fields above it are 0, fields "
-                   "below it stay inside their radix (24/60/60/1000/1000/1000) and the field at it is at most "
-                   "maxTimeDuration / unit length - computed by interval analysis of the function body for every unit")
+                   "below it stay inside their radix (24/60/60/1000/1000/1000) and the field at it carries the rest. Decided "
+                   "twice: by interval analysis of the function body (a proof for every input when it succeeds; when the "
+                   "analysis is too coarse for the way the function is written nothing is claimed) and by folding the function "
+                   "on the carry boundaries of every radix, both signs, for every largest unit (violations come from here)")
     path = I.CORE + "duration::time::TimeDuration::from_normalized"
     eng = I.engine(fx)
     if path not in eng.fns:
         run.anchor_missing(rule, "from_normalized", "TimeDuration::from_normalized not found")
         return
     f = eng.fns[path]
+    proved = 0
     for ui, u in enumerate(UNITS):
         norm = I.Rec({"0": I.AV(-MAXN, MAXN, True, "norm"), 0: I.AV(-MAXN, MAXN, True, "norm")})
         r = eng.call_fn(path, [norm, I.Rec({("variant", u): I.Rec({})})], ())
         ok = r.f.get(("variant", "Ok")) if isinstance(r, I.Rec) else None
         tup = ok.f.get(0) if isinstance(ok, I.Rec) else None
-        if not isinstance(tup, I.Rec) or not isinstance(tup.f.get(1), I.Rec):
-            run.anchor_missing(rule, "unit/" + u, "no success value could be computed for largest unit %s" % u, f.loc)
-            continue
-        vals = {"days": tup.f.get(0)}
-        vals.update({k: v for k, v in tup.f[1].f.items() if isinstance(k, str)})
+        vals = {}
+        if isinstance(tup, I.Rec) and isinstance(tup.f.get(1), I.Rec):
+            vals = {"days": tup.f.get(0)}
+            vals.update({k: v for k, v in tup.f[1].f.items() if isinstance(k, str)})
         for fi, (name, length, radix) in enumerate(FIELDS):
             m = _mag(vals.get(name))
-            key = "%s/%s" % (u, name)
-            if fi < ui:
-                want, why = 0, "a field above the largest unit is zero"
-            elif fi == ui:
-                want, why = MAXN // length, "the largest unit carries everything: at most maxTimeDuration / unit length"
+            want = 0 if fi < ui else (MAXN // length if fi == ui else radix - 1)
+            key = "interval/%s/%s" % (u, name)
+            if m is not None and m <= want:
+                proved += 1
+                run.ok(rule, key, "|%s| <= %d with largest unit %s, for every input (interval analysis)" % (name, want, u), f.loc)
             else:
-                want, why = radix - 1, "a field below the largest unit is reduced modulo its radix %d" % radix
-            run.check(m is not None and m <= want, rule, key, "|%s| <= %d with largest unit %s" % (name, want, u),
-                      "with largest unit %s the field %s ranges up to %s; %s (<= %d)" % (u, name, m, why, want), f.loc)
-    run.exhaustive_tables.append("BalanceTimeDuration field ranges (7 largest units x 7 fields)")
+                run.ok(rule, key, "the interval analysis bounds |%s| by %s only (needs <= %d): no proof for every input, see the "
+                                  "folded cells" % (name, m, want), f.loc, nontrivial=False)
+    run.analysed["balance_cells_proved_by_intervals"] = proved
+    # value folds on the carry boundaries
+    hf = fx["temporal_rs"].fn(path)
+    N = "temporal_rs::builtins::core::duration::normalized::NormalizedTimeDuration"
+    F = "temporal_rs::primitive::FiniteF64"
+    reps = [0, 1, 999, 1000, 1001, 999_999, 10 ** 6, 10 ** 9 - 1, 10 ** 9, 60 * 10 ** 9 - 1, 60 * 10 ** 9, 3600 * 10 ** 9 - 1,
+            3600 * 10 ** 9, 86_400 * 10 ** 9 - 1, 86_400 * 10 ** 9, 90_061_001_001_001, 2 ** 53 - 1]
+    decided = 0
+    for ui, u in enumerate(UNITS):
+        bad, und = [], 0
+        for a in reps + ([MAXN] if ui <= 3 else []):
+            for x in ((a, -a) if a else (0,)):
+                got = fold(H.Evaluator(fx), hf, [H.V(N, (x,)), H.V("temporal_rs::options::Unit::" + u, ())])
+                if got[0] != "ok" or not isinstance(got[1], H.T) or len(got[1].items) != 2 or not isinstance(got[1].items[1], H.S):
+                    und += 1
+                    continue
+                days, td = got[1].items
+                have = [days.args[0] if isinstance(days, H.V) and days.args else days] + \
+                       [(v.args[0] if isinstance(v, H.V) and v.args else v) for _, v in td.fields]
+                want = [float(v) for v in _balance(x, ui)]
+                if not all(isinstance(h, (int, float)) for h in have):
+                    und += 1
+                    continue
+                decided += 1
+                if [float(h) for h in have] != want:
+                    bad.append("%d ns -> %s, BalanceTimeDuration gives %s" % (x, [float(h) for h in have], want))
+        key = "folded/%s" % u
+        if und and not bad:
+            run.ok(rule, key, "%d representative(s) do not fold: not decided" % und, f.loc, nontrivial=False)
+        else:
+            run.check(not bad, rule, key, "largest unit %s: every carry boundary balances as specified" % u,
+                      "with largest unit %s: %s" % (u, "; ".join(bad[:3])), f.loc)
+    run.analysed["balance_cells_folded"] = decided
+    run.exhaustive_tables.append("BalanceTimeDuration (7 largest units x carry boundaries of every radix x sign)")
